@@ -697,10 +697,14 @@ evhttp_make_header(struct evhttp_connection *evcon, struct evhttp_request *req)
 	evbuffer_add(output, "\r\n", 2);
 
 	if (evhttp_have_expect(req, 0) != CONTINUE &&
-		evbuffer_get_length(req->output_buffer)) {
+		evbuffer_get_length(req->output_buffer) &&
+		(req->kind == EVHTTP_REQUEST || evhttp_response_needs_body(req))) {
 		/*
 		 * For a request, we add the POST data, for a reply, this
-		 * is the regular data.
+		 * is the regular data.  A reply that must not have a body
+		 * (HEAD, 1xx, 204, 304) is sent without one: it carries no
+		 * Content-Length, so the data would be read as the start of
+		 * the next message.
 		 */
 		evbuffer_add_buffer(output, req->output_buffer);
 	}
